@@ -24,11 +24,18 @@ func runC20(c *Ctx) {
 	cfg.ProviderURL = ""
 	cfg.Keytab = c.W.WriteKeytab("HTTP/gw.test", "CORP.TEST", "service-password")
 	nk := 1 + c.T.Choose(3)
-	realms := map[string][]string{"CORP.TEST": nil, "OTHER.TEST": {"kdc.other.test:88"}}
-	for i := 0; i < nk; i++ {
-		realms["CORP.TEST"] = append(realms["CORP.TEST"], fmt.Sprintf("kdc%d.corp.test:88", i+1))
+	// realm names are compared as configured (they are case-sensitive in Kerberos); the other
+	// realm may be one that differs from the first in letter case only
+	realmName := []string{"CORP.TEST", "CORP.TEST", "CORP.TEST", "Corp.Test", "corp.test"}[c.T.Choose(5)]
+	otherName := "OTHER.TEST"
+	if realmName != "CORP.TEST" && c.T.Bool(1, 2) {
+		otherName = "CORP.TEST"
 	}
-	cfg.Krb5Conf = c.W.WriteKrb5Conf("CORP.TEST", realms)
+	realms := map[string][]string{realmName: nil, otherName: {"kdc.other.test:88"}}
+	for i := 0; i < nk; i++ {
+		realms[realmName] = append(realms[realmName], fmt.Sprintf("kdc%d.corp.test:88", i+1))
+	}
+	cfg.Krb5Conf = c.W.WriteKrb5Conf(realmName, realms)
 	g := c.W.Boot(cfg)
 	if g.Exited || g.Server == nil {
 		c.Infra("gateway did not start: %s", g.ExitLine)
@@ -38,14 +45,23 @@ func runC20(c *Ctx) {
 	// response); now they are back
 	outage := ""
 	if c.T.Bool(1, 4) {
-		pl := c.T.Bytes(30+c.T.Choose(300), 0x7a)
-		kb := append(binary.BigEndian.AppendUint32(nil, uint32(len(pl))), pl...)
-		t1 := time.Now()
-		pre := c.W.Start(&env.HTTPReq{Name: "kp-pre", From: "10.5.0.2:52999", Method: "POST", Path: "/KdcProxy", Body: codec.KDCProxyMessage(kb, "", false), Header: [][2]string{{"Content-Type", "application/kerberos"}}})
-		c.W.WaitAll([]*env.Pending{pre}, 40*time.Second)
-		if pre.Res.Status == 0 || pre.Res.Status == 200 || time.Since(t1) > 15*time.Second {
-			c.S.Fail("C20", "outage-request", "a request made while every KDC of the realm refuses connections got status %d after %v (eof=%v timeout=%v)", pre.Res.Status, time.Since(t1).Round(time.Millisecond), pre.Res.EOF, pre.Res.Timeout)
-			return
+		// (in some runs the outage lasted long enough for dozens of requests to fail)
+		nfail := 1
+		if c.T.Bool(1, 8) {
+			nfail = 30 + c.T.Choose(20)
+			c.S.Count("probe.many_requests_failed_during_outage")
+		}
+		var pre *env.Pending
+		for i := 0; i < nfail; i++ {
+			pl := c.T.Bytes(30+c.T.Choose(300), 0x7a)
+			kb := append(binary.BigEndian.AppendUint32(nil, uint32(len(pl))), pl...)
+			t1 := time.Now()
+			pre = c.W.Start(&env.HTTPReq{Name: fmt.Sprintf("kp-pre%d", i), From: "10.5.0.2:52999", Method: "POST", Path: "/KdcProxy", Body: codec.KDCProxyMessage(kb, "", false), Header: [][2]string{{"Content-Type", "application/kerberos"}}})
+			c.W.WaitAll([]*env.Pending{pre}, 40*time.Second)
+			if pre.Res.Status == 0 || pre.Res.Status == 200 || time.Since(t1) > 15*time.Second {
+				c.S.Fail("C20", "outage-request", "a request made while every KDC of the realm refuses connections got status %d after %v (eof=%v timeout=%v)", pre.Res.Status, time.Since(t1).Round(time.Millisecond), pre.Res.EOF, pre.Res.Timeout)
+				return
+			}
 		}
 		gap := time.Duration(c.T.Choose(25)) * time.Second
 		c.S.Advance(gap)
@@ -63,7 +79,7 @@ func runC20(c *Ctx) {
 	var kdcs []*env.KDC
 	var kd []string
 	answering := 0
-	for _, addr := range realms["CORP.TEST"] {
+	for _, addr := range realms[realmName] {
 		tb := []string{"reply-close", "reply-open", "partial", "partial-close", "close", "silent", "refuse", "blackhole", "drip"}[c.T.Choose(9)]
 		ub := []string{"reply-open", "silent", "refuse", "refuse"}[c.T.Choose(4)]
 		if tb == "blackhole" {
@@ -108,14 +124,17 @@ func runC20(c *Ctx) {
 	if len(payload) > 131000 && defect != "GET" && defect != "no-length" {
 		defect = "too-large"
 	}
+	// the optional dclocator-hint field: absent, or present with any value (0 included)
+	hint := []int64{-1, -1, -1, 0, 1, 0x40000000}[c.T.Choose(6)]
 	var body []byte
 	switch realmKind {
 	case "default":
-		body = codec.KDCProxyMessage(kerb, "", false)
+		// no target-domain at all, or an explicitly empty one
+		body = codec.KDCProxyMessageHint(kerb, "", c.T.Bool(1, 4), hint)
 	case "configured":
-		body = codec.KDCProxyMessage(kerb, "CORP.TEST", true)
+		body = codec.KDCProxyMessageHint(kerb, realmName, true, hint)
 	default:
-		body = codec.KDCProxyMessage(kerb, "NOWHERE.TEST", true)
+		body = codec.KDCProxyMessageHint(kerb, "NOWHERE.TEST", true, hint)
 	}
 	req := &env.HTTPReq{Name: "kp", From: "10.5.0.3:53000", Method: "POST", Path: "/KdcProxy", Body: body, Header: [][2]string{{"Content-Type", "application/kerberos"}}}
 	wantStatus := 0
@@ -144,7 +163,7 @@ func runC20(c *Ctx) {
 		req.Body = codec.KDCProxyMessage(kerb, "", false)
 		realmKind = "default"
 	}
-	descr := outage + fmt.Sprintf("kdcs=%s request{realm=%s payload=%d defect=%q}", strings.Join(kd, " "), realmKind, len(payload), defect)
+	descr := outage + fmt.Sprintf("realm=%s other-realm=%s kdcs=%s request{realm=%s hint=%d payload=%d defect=%q}", realmName, otherName, strings.Join(kd, " "), realmKind, hint, len(payload), defect)
 	c.Res.CaseKey = descr
 	t0 := time.Now()
 	// companions: further well-formed requests for the default realm in flight at the same time
